@@ -7,6 +7,7 @@ import (
 	"fmt"
 	"os"
 	"path/filepath"
+	"runtime/debug"
 	"strings"
 	"testing"
 	"time"
@@ -16,6 +17,7 @@ import (
 	"github.com/google/gce-tcb-verifier/keys"
 	epb "github.com/google/gce-tcb-verifier/proto/endorsement"
 	vpb "github.com/google/gce-tcb-verifier/proto/scrtmversion"
+	"github.com/google/gce-tcb-verifier/storage/local"
 	"google.golang.org/protobuf/proto"
 	"pgregory.net/rapid"
 
@@ -66,11 +68,14 @@ func (o *memOps) TryCommit(context.Context) (any, error) {
 // The same oracle through the command line: flags and SVN side files are part of the request.
 func TestSignedDocumentThroughCLI(t *testing.T) {
 	const name = "cli/document-vs-image"
-	ev.Rule(name, "the `endorse` command (cmd.MakeApp, fresh tree per run) over a generated firmware written to <dir>/<name>.fd with an SVN side file {absent, <name>.fd.scrtm.pb, <name>_scrtm_ver.pb} holding version 0..9 and flags --add_snp/--add_tdx, --snp_launch_vmsas, --snp_product, --snp_family_id, --snp_image_id, --tdx_machine_shapes, --tdx_include_early_accept, --clspec, --commit, --timestamp; recording CA/signer and an in-memory version-control double; oracle: the committed endorsement's payload passes the same value-by-value comparison as document-vs-image, with the side file's SVN expected in EVERY requested technology section; non-trivial = both technologies or a side file present; distinct = (technologies, side-file kind, svn, request shape)")
+	ev.Rule(name, "the `endorse` command (cmd.MakeApp, fresh tree per run) over a generated firmware written to <dir>/<name>.fd with an SVN side file {absent, <name>.fd.scrtm.pb, <name>_scrtm_ver.pb} holding version 0..9 and flags --add_snp/--add_tdx, --snp_launch_vmsas, --snp_product, --snp_family_id, --snp_image_id, --tdx_machine_shapes, --tdx_include_early_accept, --svsm_snp_measurement_path (a 48-byte value as hex text, drawn in 1 of 3 SNP requests) with or without --svsm_path, --clspec, --commit, --timestamp; recording CA/signer and an in-memory version-control double; oracle: the committed endorsement's payload passes the same value-by-value comparison as document-vs-image, with the side file's SVN expected in EVERY requested technology section; non-trivial = both technologies or a side file present; distinct = (technologies, side-file kind, svn, request shape)")
 	checks(ev.Scale(250, 2500))
 	rapid.Check(t, func(t *rapid.T) {
 		r := genRequest(t)
-		r.svsm = nil // the SVSM inputs are read through the storage client; not driven here
+		if !r.sev {
+			r.svsm = nil
+		}
+		svsmImage := r.svsm != nil && rapid.Bool().Draw(t, "svsmImageToo")
 		r.badID = ""
 		side := rapid.SampledFrom([]string{"none", "fd.scrtm.pb", "_scrtm_ver.pb"}).Draw(t, "sideFile")
 		svn := uint32(rapid.IntRange(0, 9).Draw(t, "sideSvn"))
@@ -117,7 +122,7 @@ func TestSignedDocumentThroughCLI(t *testing.T) {
 			ec.VCS = vcs
 			return ctx, nil
 		}}
-		app := rcmd.MakeApp(context.Background(), &rcmd.AppComponents{Endorse: comp, SignatureRandom: zeroReader{}})
+		app := rcmd.MakeApp(context.Background(), &rcmd.AppComponents{Endorse: comp, SignatureRandom: zeroReader{}, Storage: &local.StorageClient{}})
 		args := []string{"endorse", "--quiet", "--uefi", fw, "--out_dir", "out", "--timestamp", r.timestamp.Format(time.RFC3339Nano)}
 		if r.sev {
 			args = append(args, "--add_snp", fmt.Sprintf("--snp_launch_vmsas=%d", r.vmsas))
@@ -144,6 +149,23 @@ func TestSignedDocumentThroughCLI(t *testing.T) {
 				args = append(args, "--tdx_include_early_accept")
 			}
 		}
+		if r.svsm != nil {
+			// the two SVSM inputs are independent flags: the expected measurement (hex text, surrounding
+			// white space allowed) with or without the SVSM image itself
+			mp := filepath.Join(dir, "svsm.meas")
+			txt := hex.EncodeToString(r.svsm) + rapid.SampledFrom([]string{"", "\n", " \n"}).Draw(t, "svsmTrailer")
+			if err := os.WriteFile(mp, []byte(txt), 0o644); err != nil {
+				t.Fatalf("harness: %v", err)
+			}
+			args = append(args, "--svsm_snp_measurement_path="+mp)
+			if svsmImage {
+				ip := filepath.Join(dir, "svsm.igvm")
+				if err := os.WriteFile(ip, rapid.SliceOfN(rapid.Byte(), 1, 64).Draw(t, "svsmImage"), 0o644); err != nil {
+					t.Fatalf("harness: %v", err)
+				}
+				args = append(args, "--svsm_path="+ip)
+			}
+		}
 		if r.clSpec != 0 {
 			args = append(args, fmt.Sprintf("--clspec=%d", r.clSpec))
 		}
@@ -158,7 +180,7 @@ func TestSignedDocumentThroughCLI(t *testing.T) {
 		func() {
 			defer func() {
 				if x := recover(); x != nil {
-					pan = x
+					pan = fmt.Sprintf("%v\n%s", x, debug.Stack())
 				}
 			}()
 			runErr = app.Execute()
@@ -189,7 +211,7 @@ func TestSignedDocumentThroughCLI(t *testing.T) {
 			ev.Violation(t, key, "%s: signed payload: %s", desc, msg)
 			return
 		}
-		ev.Case(name, (r.sev && r.tdx) || side != "none", fmt.Sprintf("%v|%v|%s|%d|%d|%d|%v", r.sev, r.tdx, side, svn, r.vmsas, len(r.shapes), r.early), fmt.Sprintf("sev=%v/tdx=%v/side=%s", r.sev, r.tdx, side), func() any {
+		ev.Case(name, (r.sev && r.tdx) || side != "none", fmt.Sprintf("%v|%v|%s|%d|%d|%d|%v|%v|%v", r.sev, r.tdx, side, svn, r.vmsas, len(r.shapes), r.early, r.svsm != nil, svsmImage), fmt.Sprintf("sev=%v/tdx=%v/side=%s", r.sev, r.tdx, side), func() any {
 			return map[string]any{"args": args[3:], "side_file": side, "svn": svn}
 		})
 	})
